@@ -847,3 +847,73 @@ TARGETS.append(("Layouts", gen_layouts))
 if __name__ == "__main__":
     import json
     print(json.dumps(regenerate(), indent=1))
+
+
+# ------------------------------------------------------------------------------------- G6: documented contract
+def gen_docs():
+    """`:raises` clauses of the adapter interfaces and the adapter methods each `_on_<method>` handler calls."""
+    out = HEADER % "interfaces/{data,metadata}.py (docstrings), server.py (_on_* handlers)"
+    out += "namespace Ari.Gen\n\n"
+    raises = []
+    for rel, cls in (("interfaces/metadata.py", "MetadataProvider"), ("interfaces/data.py", "DataProvider")):
+        t, _ = parse(rel)
+        c = find_class(t, cls)
+        if c is None:
+            raise Unsupported("class %s not found" % cls)
+        for f in c.body:
+            if isinstance(f, ast.FunctionDef):
+                doc = ast.get_docstring(f) or ""
+                rs = re.findall(r":raises\s+([A-Za-z_.\\\s]+?):", doc)
+                rs = [x.replace("\\", "").split(".")[-1].strip() for x in rs]
+                raises.append(("%s.%s" % (cls, f.name), rs))
+    out += "/-- adapter method -> exception classes its docstring declares with `:raises`. -/\n"
+    out += "def raisesDoc : List (String × List String) :=\n [" + ",\n  ".join(
+        "(%s, [%s])" % (lean_str(f), ", ".join(lean_str(x) for x in rs)) for f, rs in raises) + "]\n\n"
+    stree, _ = parse("server.py")
+    init_fn = None
+    for cls in stree.body:
+        if isinstance(cls, ast.ClassDef):
+            for f in cls.body:
+                if isinstance(f, ast.FunctionDef) and f.name == "_on_init":
+                    init_fn = f
+
+    def adapter_calls(fn, recv):
+        calls = [c for c in ast.walk(fn) if isinstance(c, ast.Call) and isinstance(c.func, ast.Attribute)
+                 and ast.unparse(c.func.value) == recv]
+        calls.sort(key=lambda c: (c.lineno, c.col_offset))
+        return [c.func.attr for c in calls]
+    table = []
+    for scls, acls in (("MetadataProviderServer", "MetadataProvider"), ("DataProviderServer", "DataProvider")):
+        c = find_class(stree, scls)
+        if c is None:
+            raise Unsupported("class %s not found" % scls)
+        for f in c.body:
+            m = isinstance(f, ast.FunctionDef) and re.fullmatch(r"_on_([a-z]{3})", f.name)
+            if not m:
+                continue
+            names = adapter_calls(f, "self._adapter")
+            inits = [x for x in ast.walk(f) if isinstance(x, ast.Call) and ast.unparse(x.func) == "self._on_init"]
+            if inits:
+                if init_fn is None or len(inits) != 1:
+                    raise Unsupported("_on_init call shape in " + f.name)
+                # calls guarded by `if invoke_listener is True:` count only when the handler passes True
+                flag = [a for a in inits[0].args[5:6]] + [k.value for k in inits[0].keywords if k.arg == "invoke_listener"]
+                if flag and not isinstance(flag[0], ast.Constant):
+                    raise Unsupported("invoke_listener argument in " + f.name)
+                listener = bool(flag) and flag[0].value is True
+                guarded = set()
+                for st in ast.walk(init_fn):
+                    if isinstance(st, ast.If) and ast.unparse(st.test) == "invoke_listener is True":
+                        guarded |= {id(c) for b in st.body for c in ast.walk(b)}
+                calls = [c for c in ast.walk(init_fn) if isinstance(c, ast.Call) and isinstance(c.func, ast.Attribute)
+                         and ast.unparse(c.func.value) == "adapter" and (listener or id(c) not in guarded)]
+                calls.sort(key=lambda c: (c.lineno, c.col_offset))
+                names = [c.func.attr for c in calls] + names
+            table.append((m.group(1).upper(), ["%s.%s" % (acls, n) for n in names]))
+    out += "/-- wire method -> adapter methods its `_on_<method>` handler calls, in source order. -/\n"
+    out += "def adapterCalls : List (String × List String) :=\n [" + ",\n  ".join(
+        "(%s, [%s])" % (lean_str(m), ", ".join(lean_str(x) for x in ns)) for m, ns in table) + "]\n\nend Ari.Gen\n"
+    return out
+
+
+TARGETS.append(("Docs", gen_docs))
